@@ -9,7 +9,9 @@ CONSTANTS
   MemoBug = FALSE
   SharedOutBug = TRUE
   InPlaceBug = FALSE
+  LazyCtorBug = FALSE
 VIEW View
 INVARIANT ResultFromCurrentContent
 INVARIANT ResultsStable
+INVARIANT BuiltFromCtorValue
 PROPERTY ArgsUntouched
